@@ -886,6 +886,8 @@ def namespaceOp (run : Run) (n : Nat) (id : Nat) (key : String) (members : List 
   match op with
   | .evaluate => do
     let r ← populate run o n (.dict []) members
+    -- `get_dotted_key(self.key, populated)`: a dotted lookup like any other (in the populated dictionary)
+    emit (.read key)
     match getDotted key r with
     | .found v => pure v
     | .keyErr => raise (errOther "KeyError")
